@@ -48,12 +48,12 @@ Matrix3 == {Call(f, t) : f \in Fns, t \in Tuples(Reps(Kinds5), 3)}
 Matrix4 == {Call(f, t) : f \in Fns, t \in Tuples(Reps(Kinds3), 4)}
 
 \* ------------------------------------------------------------------ value matrix for the specified functions
-AtomsQ == {Null, Bool(TRUE), Bool(FALSE), IntV(0), IntV(1), IntV(3), IntV(-1), Flt(1, 1), Flt(3, 1), Flt(2, 0), Flt(0, 0),
-           Str(<<>>), S1(97), S1(98), Str(<<97, 98>>), Arr(<<>>), Arr(<<IntV(3), IntV(1), IntV(2)>>), Obj([a |-> IntV(1)]),
-           P(FALSE, <<C("src"), C("a")>>), P(FALSE, <<C("src"), C("s")>>), P(FALSE, <<C("src"), C("f")>>),
-           P(FALSE, <<C("src"), C("zz")>>), P(FALSE, <<C("src"), C("b")>>),
-           Call("sum", <<IntV(1), IntV(2)>>), Call("list", <<IntV(1), S1(97)>>)}
-AtomsB == AtomsQ \cup {IntV(2), IntV(4), Flt(-3, 2), Flt(4, 0), Arr(<<S1(98), S1(97)>>), Arr(<<IntV(1), Flt(2, 0)>>),
+AtomsQ == {Null, Bool(TRUE), Bool(FALSE), IntV(0), IntV(3), Flt(3, 1), Flt(2, 0),
+           S1(97), Str(<<97, 98>>), Arr(<<IntV(3), IntV(1), IntV(2)>>), Obj([a |-> IntV(1)]),
+           P(FALSE, <<C("src"), C("a")>>), P(FALSE, <<C("src"), C("s")>>), P(FALSE, <<C("src"), C("zz")>>),
+           Call("sum", <<IntV(1), IntV(2)>>)}
+AtomsB == AtomsQ \cup {IntV(1), IntV(-1), Flt(1, 1), Flt(0, 0), Str(<<>>), S1(98), Arr(<<>>), P(FALSE, <<C("src"), C("f")>>),
+           P(FALSE, <<C("src"), C("b")>>), Call("list", <<IntV(1), S1(97)>>), IntV(2), IntV(4), Flt(-3, 2), Flt(4, 0), Arr(<<S1(98), S1(97)>>), Arr(<<IntV(1), Flt(2, 0)>>),
            Arr(<<IntV(1), IntV(2)>>), Obj(<<>>), Obj([a |-> Flt(1, 0)]), Str(<<98, 97>>),
            P(FALSE, <<C("src"), C("b"), N(1)>>), P(FALSE, <<C("src"), C("b"), N(-1)>>), P(TRUE, <<C("src"), C("c")>>),
            P(FALSE, <<C("src"), C("c"), C("d")>>), P(FALSE, <<C("src"), W>>), P(FALSE, <<D, C("k")>>),
@@ -117,7 +117,8 @@ EachPlans == {Call("each", <<l, Call("set", <<P(TRUE, <<C("asm")>>), b>>)>>) : l
 \* ------------------------------------------------------------------ families
 Both(ps, r) == {Case(Wrapped(p), r, FALSE) : p \in ps} \cup {Case(p, r, FALSE) : p \in ps}
 Cases ==
-  CASE Part = "matrix012" -> Both(Matrix012, R1)
+  CASE Part = "matrix012" -> {Case(Wrapped(p), R1, FALSE) : p \in Matrix012}
+    [] Part = "matrix012b" -> {Case(p, R1, FALSE) : p \in Matrix012}
     [] Part = "matrix3" -> {Case(Wrapped(p), R1, FALSE) : p \in Matrix3}
     [] Part = "matrix4" -> {Case(Wrapped(p), R1, FALSE) : p \in Matrix4}
     [] Part = "values1" -> {Case(Wrapped(p), R1, FALSE) : p \in Values1}
@@ -129,9 +130,9 @@ Cases ==
 
 \* ------------------------------------------------------------------ random nested plans (tlc -simulate)
 RECURSIVE Gen(_)
-RandAtom == RandomElement(AtomsB)
+RandAtom(d) == RandomElement(AtomsB)      \* (a parameter, so that TLC does not cache one draw)
 Gen(d) ==
-  IF d = 0 \/ RandomElement(1..4) = 1 THEN RandAtom
+  IF d = 0 \/ RandomElement(1..4) = 1 THEN RandAtom(d)
   ELSE LET f == RandomElement(Fns)
            g == Canon(f) IN
        CASE g \in {"set", "setall"} -> Call(f, <<RandomElement(MPaths), Gen(d - 1)>>)
